@@ -101,7 +101,13 @@ def build_inputs(entry, rep, cond):
         store['localbkg_est'] = B.LocalBackground(5, 9, bkg_estimator=B.MedianBackground())
         store['finder'] = DAOStarFinder(10.0, 3.5)
         # (an astropy fitter is not tracked: storing fit_info on itself is the documented behaviour of astropy's fitters)
-    if entry in ('aperture_photometry', 'aperture_stats'):
+    # caller-owned size arguments given as arrays, larger than the image (they are clipped to it - in a copy)
+    store['box_size_arr'] = np.array([40, 50]); store['border_width_arr'] = np.array([2, 50])
+    store['fit_boxsize_arr'] = np.array([15, 17]); store['search_boxsize_arr'] = np.array([21, 15])
+    if entry == 'plotting':
+        from photutils.aperture import EllipticalAperture, RectangularAperture
+        store['apertures_more'] = [EllipticalAperture(E._positions()[0], 4.0, 2.0, theta=0.3), RectangularAperture(E._positions(), 4.0, 2.0)]
+    if entry in ('aperture_photometry', 'aperture_stats', 'plotting'):
         from astropy.stats import SigmaClip
         from photutils.aperture import CircularAnnulus, CircularAperture
         store['ap_positions'] = np.array(E._positions() + [(1.0, 1.0)])
@@ -151,9 +157,9 @@ def snapshot(store):
             out[k] = digest([np.asarray(v.data), sorted((int(a), [int(c) for c in b]) for a, b in v.deblended_labels_inverse_map.items())])
         elif k == 'detection_cat':
             out[k] = digest([np.asarray(v.labels), np.asarray(v.xcentroid), np.asarray(v.ycentroid), np.asarray(v.kron_radius.value), list(v.extra_properties)])
-        elif k in ('apertures', 'aperture5'):      # defining parameters only (lazily cached derived attributes live in __dict__ too)
+        elif k in ('apertures', 'aperture5', 'apertures_more'):      # defining parameters only (lazily cached derived attributes live in __dict__ too)
             aps = v if isinstance(v, list) else [v]
-            out[k] = digest([[type(a).__name__, np.asarray(a.positions), {q: float(getattr(a, q)) for q in a._params if q != 'positions'}] for a in aps])
+            out[k] = digest([[type(a).__name__, np.asarray(a.positions), {q: float(getattr(getattr(a, q), 'value', getattr(a, q))) for q in a._params if q != 'positions'}] for a in aps])
         elif type(v).__module__.split('.')[0] in ('photutils', 'astropy') and not hasattr(v, 'param_names') and not hasattr(v, 'colnames') \
                 and not isinstance(v, np.ndarray) and not hasattr(v, 'uncertainty'):
             out[k] = digest(describe(v))
